@@ -101,7 +101,7 @@ def engine_ok(engine, seqs, k):
 
 
 ADJ_KINDS = ['list', 'lists', 'tuple', 'ndarray', 'int32', 'float64', 'floatdist', 'npscalars', 'fortran', 'view']
-NODE_KINDS = ['list', 'tuple', 'ndarray', 'ndarray_U', 'series', 'series_perm', 'series_str', 'index', 'categorical']
+NODE_KINDS = ['list', 'tuple', 'ndarray', 'ndarray_U', 'series', 'series_perm', 'series_str', 'index', 'categorical', 'series_dupidx', 'series_dupidx3']
 
 
 def adj_as(kind, adj):
@@ -159,6 +159,10 @@ def nodes_as(which, labels):
         return pd.Series(labels, index=['row%d' % (n - i) for i in range(n)], dtype=object)
     if which == 'categorical':
         return pd.Categorical(labels)
+    if which == 'series_dupidx':          # repeated index labels (two repertoires concatenated without ignore_index): rows are positions
+        return pd.Series(labels, index=[i // 2 for i in range(n)], dtype=object)
+    if which == 'series_dupidx3':
+        return pd.Series(labels, index=[i % 3 for i in range(n)], dtype=object)
     return labels
 
 
@@ -710,6 +714,12 @@ def tcr_columns(rng, n, which):
             xs += repertoire(rng, n, extras=False, minlen=3)
         return xs[:n]
     a, b = chain(), chain()
+    if n >= 3 and rng.random() < 0.35:
+        # unusually long, dissimilar junctions: per-column distances beyond 25 / 50 (the upper end of the metrics' default distance bins)
+        for _ in range(rng.randint(1, 2)):
+            i = rng.randrange(n)
+            a[i] = 'C' + ''.join(rng.choice(gens.AA) for _ in range(rng.randint(35, 70))) + 'F'
+            b[i] = 'C' + ''.join(rng.choice(gens.AA) for _ in range(rng.randint(35, 70))) + 'F'
     for i in range(1, n):               # repeated chains: distance 0 on one column
         if rng.random() < 0.25:
             a[i] = a[rng.randrange(i)]
